@@ -241,7 +241,10 @@ void ebpps_sketch<T, A>::internal_merge(O&& sk) {
     if (cumulative_wt_ > 0.0)
       sample_.downsample(new_rho / rho_);
   
-    tmp_.replace_content(conditional_forward<O>(items[i]), new_rho * avg_wt);
+    // new_rho * avg_wt is an inclusion probability and at most 1 analytically, but
+    // avg_wt is a quotient of accumulated values and the product may round to 1 + eps,
+    // which replace_content() would store as a partial item with c = 1 + eps
+    tmp_.replace_content(conditional_forward<O>(items[i]), std::min(1.0, new_rho * avg_wt));
     sample_.merge(tmp_);
 
     cumulative_wt_ = new_cum_wt;
